@@ -42,6 +42,7 @@ type hookProgram struct {
 	FinalizedForImage string `json:"finalizedForImage"` // template, finalizing: finalized iff the parent (revision) has this image
 	FinalizeKeeps     bool   `json:"finalizeKeeps"`     // template, finalizing: keep asking for the children (step-down not started)
 	IntegralFloat     bool   `json:"integralFloat"`     // const: write the first "replicas":N as N.0 on the wire
+	PlainOwnerRef     bool   `json:"plainOwnerRef"`     // const: every child lists the parent as a plain (non-controller) owner
 }
 
 func (h *hookProgram) answer(url string, req J) (int, map[string]string, []byte, bool) {
@@ -88,7 +89,16 @@ func (h *hookProgram) answer(url string, req J) (int, map[string]string, []byte,
 	}
 	cl := make(A, 0, len(children))
 	for _, c := range children {
-		cl = append(cl, runtime.DeepCopyJSON(c))
+		c2 := runtime.DeepCopyJSON(c)
+		if h.PlainOwnerRef {
+			if parent, ok := req["parent"].(map[string]interface{}); ok {
+				pmd, _ := parent["metadata"].(map[string]interface{})
+				if md, ok := c2["metadata"].(map[string]interface{}); ok && pmd != nil {
+					md["ownerReferences"] = A{J{"apiVersion": parent["apiVersion"], "kind": parent["kind"], "name": pmd["name"], "uid": pmd["uid"]}}
+				}
+			}
+		}
+		cl = append(cl, c2)
 	}
 	resp["children"] = cl
 	if h.NullStatus {
@@ -267,6 +277,30 @@ type extOp struct {
 }
 
 func (w *cworld) applyExt(op extOp) {
+	if op.Op == "recreate-revisions" || op.Op == "orphan-revisions" {
+		// every ControllerRevision: a new incarnation under the same name / no owner any more
+		mdOf := func(o J) J {
+			m, _ := o["metadata"].(map[string]interface{})
+			return m
+		}
+		for _, o := range w.srv.AllLive() {
+			if o["kind"] != "ControllerRevision" {
+				continue
+			}
+			m := mdOf(o)
+			ns, _ := m["namespace"].(string)
+			name, _ := m["name"].(string)
+			if op.Op == "recreate-revisions" {
+				w.srv.RemoveLive(fmt.Sprint(o["apiVersion"]), "ControllerRevision", ns, name)
+				delete(m, "uid")
+			} else {
+				delete(m, "ownerReferences")
+			}
+			delete(m, "resourceVersion")
+			w.srv.Seed(o)
+		}
+		return
+	}
 	cur := w.srv.GetLive(op.APIVersion, op.Kind, op.Namespace, op.Name)
 	md := func(o J) J {
 		m, _ := o["metadata"].(map[string]interface{})
@@ -399,6 +433,7 @@ type faultOn struct {
 	AfterHook bool   `json:"afterHook"`
 	Nth       int    `json:"nth"` // 0 = first matching request
 	Fault     J      `json:"fault"`
+	Ops       []extOp `json:"ops"` // store edits applied just before that request (with or without a fault)
 }
 
 type scenario struct {
@@ -539,6 +574,12 @@ func runScenario(sc *scenario) (*caseRec, error) {
 				if fo.Verb == verb && fo.Kind == kind && (!fo.AfterHook || len(hookTransport.Calls()) > 0) {
 					seen[fi]++
 					if seen[fi]-1 == fo.Nth {
+						for _, op := range fo.Ops {
+							w.applyExt(op)
+						}
+						if fo.Fault == nil {
+							continue
+						}
 						code, _ := fo.Fault["code"].(float64)
 						if c2, ok := fo.Fault["code"].(int); ok {
 							code = float64(c2)
@@ -708,9 +749,13 @@ func coqCfg(s *ctlSpec) string {
 	for _, r := range simResources {
 		known = append(known, coqKid(kidSpec{APIVersion: r.APIVersion(), Resource: r.Resource, Kind: r.Kind, Namespaced: r.Namespaced}))
 	}
-	return fmt.Sprintf("(mkCfg %s %s %s %s %s true %s %s [%s] %s %s [%s] %s %s %s %s)", vh.MustCoqString(s.Name),
+	hasStatus := true
+	if pr := resByKind(s.ParentAPIVersion, s.ParentKind); pr != nil {
+		hasStatus = pr.HasStatus
+	}
+	return fmt.Sprintf("(mkCfg %s %s %s %s %s %s %s %s [%s] %s %s [%s] %s %s %s %s)", vh.MustCoqString(s.Name),
 		vh.MustCoqString(s.ParentAPIVersion), vh.MustCoqString(s.ParentKind), vh.MustCoqString(s.ParentResource),
-		vh.CoqBool(s.ParentNamespaced), vh.CoqBool(s.GenSelector), coqSelector(s.CtlSelector),
+		vh.CoqBool(s.ParentNamespaced), vh.CoqBool(hasStatus), vh.CoqBool(s.GenSelector), coqSelector(s.CtlSelector),
 		strings.Join(kids, "; "), vh.CoqBool(!s.NoSync), vh.CoqBool(s.Finalize), strings.Join(known, "; "), vh.CoqBool(s.SSA), vh.CoqBool(s.Customize), coqFieldPaths(s), coqChecks(s))
 }
 
